@@ -1,11 +1,14 @@
 """Print the prompt given to an independent sub-agent that seeds a property-breaking change."""
 import json, sys
 pid = sys.argv[1]
+wave = sys.argv[2] if len(sys.argv) > 2 else ""
 for l in open('/verif/properties.jsonl'):
     p = json.loads(l)
     if p['id'] == pid:
         break
-wt = "/tmp/seed-%s" % pid
+wt = "/tmp/seed%s-%s" % (wave, pid)
+out = "/tmp/seedout%s" % wave
+extra = ("\n- Prefer places that are NOT the first that come to mind for this property: the property is usually implemented by several cooperating functions and files (including caches, clean-up paths, helper modules, the CLI, less common API entry points and options); pick two different ones, in different functions." if wave else "")
 print(f"""You are helping test a verification harness for the Python library textX (a meta-language that compiles Xtext-like grammars into Arpeggio PEG parsers plus dynamic metamodel classes, and builds linked object models with scoping).
 
 You have your own scratch git worktree of the textX repository at {wt} (work ONLY there; never touch /repo or /verif, and do not read anything under /verif). Python is /venv/bin/python. To make sure your worktree's sources are imported, run things as: cd {wt} && PYTHONPATH={wt} /venv/bin/python ...
@@ -23,10 +26,10 @@ Your task: produce TWO different, independent, realistic changes (mutations) to 
 Requirements for each change:
 - It should look like a plausible bug a maintainer could introduce (a refactoring slip, a wrong condition, a cache or state shared where it should not be, an off-by-one in position/cursor logic, a cleanup forgotten on one path, an ordering change), not sabotage such as raising an exception unconditionally.
 - It must need something SPECIFIC to manifest: an unusual input shape, a particular multi-step sequence of operations, a failure at a particular point, a particular schedule of postponed resolutions, or two cooperating sites that each look fine alone. Changes that ordinary use would expose at once (and that the existing tests therefore catch) are not wanted.
-- Keep each change small (a few lines).
+- Keep each change small (a few lines).{extra}
 - For each change write a demonstration: a small stand-alone Python script that exits 0 on the unchanged tree and exits non-zero (assertion failure) with the change applied, and that demonstrates a violation of the property as stated above (not of something else).
 
-Deliverables, written to /tmp/seedout/{pid}/a/ and /tmp/seedout/{pid}/b/ (create the directories):
+Deliverables, written to {out}/{pid}/a/ and {out}/{pid}/b/ (create the directories):
   patch.diff   - output of `git -C {wt} diff` for that change alone (relative to the unchanged tree)
   demo.py      - the demonstration script (runnable as: cd <tree> && PYTHONPATH=<tree> /venv/bin/python demo.py)
   notes.txt    - 3-6 lines: what the change is, what is needed for it to manifest, and the last line of the pytest run with the change applied
